@@ -261,6 +261,43 @@ func ReadAll(sh *Shape, src *Source) string {
 	return sb.String()
 }
 
+// CasePrefixes: prefixes <shape> <hexfile>: reads every strict prefix of the
+// file; one status letter per cut length 0..len-1: O constructor error,
+// E Error() after Next, K accepted (no error), P panic; then, for every accepted
+// cut, "cut:rows:nexts".
+func CasePrefixes(t *Toks) string {
+	sh := shapes[t.Next()]
+	if sh == nil {
+		return "NOSHAPE"
+	}
+	data := t.Bytes()
+	status := make([]byte, len(data))
+	var accepted []string
+	for cut := 0; cut < len(data); cut++ {
+		res := func() (r string) {
+			defer func() {
+				if e := recover(); e != nil {
+					r = "PANIC"
+				}
+			}()
+			return ReadAll(sh, &Source{Data: data[:cut], FailAt: -1})
+		}()
+		switch {
+		case strings.HasPrefix(res, "OPENERR"):
+			status[cut] = 'O'
+		case strings.HasPrefix(res, "ERR"):
+			status[cut] = 'E'
+		case strings.HasPrefix(res, "OK"):
+			status[cut] = 'K'
+			f := strings.Fields(res)
+			accepted = append(accepted, fmt.Sprintf("%d:%s:%s", cut, strings.TrimPrefix(f[1], "rows="), strings.TrimPrefix(f[2], "nexts=")))
+		default:
+			status[cut] = 'P'
+		}
+	}
+	return fmt.Sprintf("%s %d %s", status, len(accepted), strings.Join(accepted, " "))
+}
+
 // RunShapeCases is the main loop of a generated runner binary.
 func RunShapeCases(path string, out io.Writer) error {
 	return EachLine(path, out, func(kind string, t *Toks) string {
@@ -269,6 +306,8 @@ func RunShapeCases(path string, out io.Writer) error {
 			return CaseWrite(t)
 		case "read":
 			return CaseRead(t)
+		case "prefixes":
+			return CasePrefixes(t)
 		case "shapes":
 			var names []string
 			for n := range shapes {
